@@ -17,8 +17,21 @@
     built-in          reject (sequence/built_in.go ActionReject)
     matchers          has_resp, qtype, and arbitrary read-only oracles.
 
-    Not modelled: fallback, dual_selector, lazy cache refresh (they run the
-    rest of the chain on copies of the context in other goroutines).
+      dual_selector     plugin/executable/dual_selector/dual_selector.go (prefer_ipv4 / prefer_ipv6)
+    and the plain executable that runs two sub-sequences
+      fallback          plugin/executable/sequence/fallback/fallback.go
+
+    dual_selector and fallback run (the rest of) the chain on COPIES of the
+    context (Context.Copy: deep for everything a plugin may write, see
+    [ctx_copy]) in other goroutines. Their timers are not modelled: the
+    reference query of dual_selector is assumed to finish within its 500 ms
+    grace period and fallback's threshold not to expire (the drivers configure
+    60 s and reject slow runs), so which copy is adopted is a function of the
+    sub-results. The sub-runs are sequenced (reference before original, primary
+    before secondary); with plugins whose shared state is touched under
+    different keys by the two runs this is one of the equivalent interleavings.
+
+    Not modelled: lazy cache refresh.
 
     Executable model only; the proofs are in Proofs/Handler.v. *)
 From Verif Require Import Base.Prelude Gen.Constants Model.Msg Model.Handler Model.Sequence.
@@ -32,16 +45,30 @@ Definition store := list (bytes * msg).     (* newest binding first *)
 Record world := World {
   w_store : N -> store;          (* one store per cache instance *)
   w_log : list (N * msg);        (* (upstream, message) handed to an upstream, newest first *)
-  w_next : N                     (* allocation counter: object identities, clock reads *)
+  w_next : N;                    (* allocation counter: object identities, clock reads *)
+  w_pref : N -> list bytes       (* per dual_selector: names known to have the preferred type *)
 }.
 
 Definition state := (ctx * world)%type.
 
-Definition bump (w : world) : world := World (w_store w) (w_log w) (w_next w + 1).
-Definition log_up (w : world) (u : N) (m : msg) : world := World (w_store w) ((u, m) :: w_log w) (w_next w).
+Definition bump (w : world) : world := World (w_store w) (w_log w) (w_next w + 1) (w_pref w).
+Definition log_up (w : world) (u : N) (m : msg) : world :=
+  World (w_store w) ((u, m) :: w_log w) (w_next w) (w_pref w).
 Definition put_store (w : world) (inst : N) (st : store) : world :=
-  World (fun i => if i =? inst then st else w_store w i) (w_log w) (w_next w).
-Definition empty_world : world := World (fun _ => []) [] 1.
+  World (fun i => if i =? inst then st else w_store w i) (w_log w) (w_next w) (w_pref w).
+Definition add_pref (w : world) (inst : N) (name : bytes) : world :=
+  World (w_store w) (w_log w) (w_next w) (fun i => if i =? inst then name :: w_pref w i else w_pref w i).
+Definition clear_log (w : world) : world := World (w_store w) [] (w_next w) (w_pref w).
+Definition empty_world : world := World (fun _ => []) [] 1 (fun _ => []).
+
+(** Context.Copy(): query, response and response OPT are deep copies (so
+    writes to the copy never reach the original and vice versa), client OPT
+    and upstream OPT are shared but read-only. In a functional model that is
+    the identity, except that the copied response is a new object. *)
+Definition ctx_copy (s : state) : state :=
+  let (c, w) := s in
+  (Ctx (c_query c) (c_client_opt c) (c_resp c) (w_next w) (c_resp_opt c) (c_upstream_opt c)
+       (c_from_udp c) (c_client_addr c), bump w).
 
 (** SetResponse with a freshly allocated message *)
 Definition set_fresh (s : state) (m : msg) : state :=
@@ -49,6 +76,8 @@ Definition set_fresh (s : state) (m : msg) : state :=
 
 Definition err_upstream : N := 1.    (* forward: all upstreams failed *)
 Definition err_panic : N := 99.      (* QOpt()/QQuestion() would panic *)
+Definition err_fallback : N := 2.    (* fallback.ErrFailed *)
+Definition err_depth : N := 98.      (* the model's nesting bound for fallback sub-sequences was too small *)
 
 (** ** Plain executables *)
 
@@ -58,7 +87,8 @@ Inductive xplugin :=
 | XArbitrary (z : question -> list rr)      (* Matcher.Search (lower-cases the name itself) *)
 | XTtl (fix_ mn mx : N)
 | XForward (u : N)
-| XDropResp.
+| XDropResp
+| XFallback (primary secondary : rules) (standby : bool).
 
 (** hosts.LookupMsg *)
 Definition hosts_reply (h : bytes -> list N * list N) (m : msg) : option msg :=
@@ -121,7 +151,8 @@ Inductive wplugin :=
 | WCache (inst : N)
 | WRedirect (f : bytes -> option bytes)      (* the domain matcher: name -> target *)
 | WEcs (fwd send : bool) (preset : option addr) (mask4 mask6 : N)
-| WFwdOpt (codes : list N).
+| WFwdOpt (codes : list N)
+| WDual (inst : N) (v6 : bool).              (* prefer_ipv6 / prefer_ipv4 *)
 
 Inductive matcher :=
 | MHasResp
@@ -132,7 +163,30 @@ Section Plugins.
   Variable ups : N -> msg -> option msg.      (* upstream oracles *)
   Variable clock : N -> option N.             (* cache clock: Some d = entry is d seconds old, None = expired / evicted *)
 
-  Definition exec_x (p : xplugin) (s : state) : state * option N :=
+  (** [runsub]: how a sub-sequence (fallback's primary / secondary) is executed *)
+
+  (** fallback.doFallback: primary on a copy; the secondary runs when the
+      primary failed (error or no response) or always when standing by; the
+      response of the first of the two that has one is adopted with
+      SetResponse, else ErrFailed. Nothing but the response comes back. *)
+  Definition fallback_exec (runsub : rules -> state -> outcome state)
+             (primary secondary : rules) (standby : bool) (s : state) : state * option N :=
+    let (c, w) := s in
+    let '(_, (cp, w1), errp) := runsub primary (ctx_copy (c, w)) in
+    let rp := match errp with Some _ => None | None => match c_resp cp with Some r => Some (c_rid cp, r) | None => None end end in
+    let run_sec := standby || match rp with Some _ => false | None => true end in
+    let '(rs, w2) :=
+      if run_sec then
+        let '(_, (cs, w2), errs) := runsub secondary (ctx_copy (c, w1)) in
+        (match errs with Some _ => None | None => match c_resp cs with Some r => Some (c_rid cs, r) | None => None end end, w2)
+      else (None, w1) in
+    match rp, rs with
+    | Some (rid, r), _ => ((set_response c rid r, w2), None)
+    | None, Some (rid, r) => ((set_response c rid r, w2), None)
+    | None, None => ((c, w2), Some err_fallback)
+    end.
+
+  Definition exec_x (runsub : rules -> state -> outcome state) (p : xplugin) (s : state) : state * option N :=
     let (c, w) := s in
     match p with
     | XHosts h => set_opt s (hosts_reply h (c_query c))
@@ -152,6 +206,7 @@ Section Plugins.
       | None => ((c, w1), Some err_upstream)
       end
     | XDropResp => ((clear_response c, w), None)
+    | XFallback pr se standby => fallback_exec runsub pr se standby s
     end.
 
   (** ActionReject.Exec *)
@@ -375,12 +430,64 @@ Section Plugins.
       end
     end.
 
+  (** *** dual_selector *)
+  Definition msg_ans_has_rr (m : msg) (t : N) : bool :=
+    existsb (fun r => match r with RR _ ty _ _ _ => ty =? t | OPT _ => false end) (m_answer m).
+
+  (** dnsutils.GenEmptyReply(q, RcodeSuccess): the SOA is always owned by "." *)
+  Definition gen_empty_reply (q : msg) : msg := with_ns (set_reply q) [fake_soa [46]].
+
+  Definition set_q0_type (q : msg) (t : N) : msg :=
+    match m_question q with
+    | qu :: l => with_question q (mkqu (qname qu) t (qclass qu) :: l)
+    | [] => q
+    end.
+
+  Definition dual_exec (inst : N) (v6 : bool) (k : state -> outcome state) (s : state) : outcome state :=
+    let (c, w) := s in
+    let q := c_query c in
+    let prefer := if v6 then type_aaaa else type_a in
+    match m_question q with
+    | [qu] =>
+      let qt := qtype qu in
+      if negb ((qt =? type_a) || (qt =? type_aaaa)) then k s
+      else if qt =? prefer then
+        let '(t, (c2, w2), err) := k s in
+        match err with
+        | Some e => (t, (c2, w2), Some e)
+        | None =>
+          let ok := match c_resp c2 with Some r => msg_ans_has_rr r prefer | None => false end in
+          (t, (c2, if ok then add_pref w2 inst (qname qu) else w2), None)
+        end
+      else if existsb (name_eqb (qname qu)) (w_pref w inst) then
+        (* the domain is known to have the preferred type: block right away *)
+        ([], set_fresh s (gen_empty_reply q), None)
+      else
+        (* reference query on a copy with the preferred type *)
+        let s0 := ctx_copy (c, w) in
+        let '(t1, (cr, w1), errr) := k (with_query (fst s0) (set_q0_type (c_query (fst s0)) prefer), snd s0) in
+        let block := match errr with
+                     | Some _ => false
+                     | None => match c_resp cr with Some r => msg_ans_has_rr r prefer | None => false end
+                     end in
+        let w1 := if block then add_pref w1 inst (qname qu) else w1 in
+        (* the original query on another copy *)
+        let '(t2, (co, w2), erro) := k (ctx_copy (c, w1)) in
+        if block then (t1 ++ t2, set_fresh (c, w2) (gen_empty_reply q), None)
+        else
+          (* *qCtx = *qCtxOrg; every later reader of the query message holds
+             the original object, which no sub-run has touched *)
+          (t1 ++ t2, (with_query co q, w2), erro)
+    | _ => k s
+    end.
+
   Definition wrap_w (p : wplugin) : (state -> outcome state) -> state -> outcome state :=
     match p with
     | WCache inst => cache_exec inst
     | WRedirect f => redirect_exec f
     | WEcs fwd send preset m4 m6 => ecs_exec fwd send preset m4 m6
     | WFwdOpt codes => fwdopt_exec codes
+    | WDual inst v6 => dual_exec inst v6
     end.
 
   (** ** Matchers (read-only) *)
@@ -397,10 +504,20 @@ Section Plugins.
   Variable wp : N -> wplugin.
   Variable mp : N -> matcher.
 
-  Definition plug_env : env state :=
-    Env state (fun m => match_m (mp m)) (fun e => exec_x (xp e)) reject_x (fun w => wrap_w (wp w)).
+  Definition env_with (sub : rules -> state -> outcome state) : env state :=
+    Env state (fun m => match_m (mp m)) (fun e => exec_x sub (xp e)) reject_x (fun w => wrap_w (wp w)).
+
+  (** Sub-sequences of fallback are sequences built before it (the registry
+      is acyclic); [depth] bounds that nesting. A program nested deeper than
+      [depth] fails with [err_depth] in the model — the theorems hold for every
+      depth, the Judge uses one larger than any program it builds. *)
+  Fixpoint plug_env (depth : nat) : env state :=
+    match depth with
+    | O => env_with (fun _ s => ([], s, Some err_depth))
+    | S d => env_with (fun rs s => run_seq (plug_env d) rs s)
+    end.
 
   (** Sequence.Exec as [EntryHandlerOpts.Entry] *)
-  Definition entry (prog : rules) (s : state) : state * option N :=
-    let '(_, s', err) := run_seq plug_env prog s in (s', err).
+  Definition entry (depth : nat) (prog : rules) (s : state) : state * option N :=
+    let '(_, s', err) := run_seq (plug_env depth) prog s in (s', err).
 End Plugins.
